@@ -168,7 +168,15 @@ enum Kind {
 /// builder with the single term 3 (no ancestors), empty record maps; annotate record 7 "x" to
 /// term 3 (present) or 9 (absent)
 fn annotate_h<const PRESENT: bool>(kind: Kind) {
-    let mut b: Builder<ConnectedTerms> = small_builder(16, 2);
+    annotate_t::<PRESENT, 16>(kind)
+}
+
+/// TABLE = size of the stub id table. With TABLE = 8 the absent id 9 lies BEYOND the table (the
+/// analogue of an id >= 10^7 in the real arena): that lookup fails on the length check alone, which
+/// is constant for symex, so the harness is cheap; with TABLE = 16 the absent id is an empty cell
+/// inside the table (symex does not finish, see DESIGN D3).
+fn annotate_t<const PRESENT: bool, const TABLE: usize>(kind: Kind) {
+    let mut b: Builder<ConnectedTerms> = small_builder(TABLE, 2);
     b.hpo_terms.insert(term_lean(3, none(), none(), none()));
     let t: u32 = if PRESENT { 3 } else { 9 };
     let r = match kind {
@@ -229,6 +237,25 @@ fn c15_annotate_orpha_absent() {
 #[kani::unwind(6)]
 fn c15_annotate_orpha_present() {
     annotate_h::<true>(Kind::Orpha);
+}
+
+#[kani::proof]
+#[kani::stub(std::hash::RandomState::new, stub_random_state)]
+#[kani::unwind(6)]
+fn c15_annotate_gene_beyond_table() {
+    annotate_t::<false, 8>(Kind::Gene);
+}
+#[kani::proof]
+#[kani::stub(std::hash::RandomState::new, stub_random_state)]
+#[kani::unwind(6)]
+fn c15_annotate_omim_beyond_table() {
+    annotate_t::<false, 8>(Kind::Omim);
+}
+#[kani::proof]
+#[kani::stub(std::hash::RandomState::new, stub_random_state)]
+#[kani::unwind(6)]
+fn c15_annotate_orpha_beyond_table() {
+    annotate_t::<false, 8>(Kind::Orpha);
 }
 
 #[kani::proof]
